@@ -125,7 +125,18 @@ func (d *c13Data) doOne(w *World, local *LFeat) {
 				cands = append(cands, o.ctr)
 			}
 		}
-		if len(cands) > 0 && w.T.Bool(7, 8, "known-ref") {
+		// (a result may also reference a notification - an error result for a notify, say: that
+		// settles no request and the notification stays retrievable)
+		var ncands []uint64
+		for _, o := range d.ops {
+			if o.kind == "notify" && o.ctr != 0 {
+				ncands = append(ncands, o.ctr)
+			}
+		}
+		if len(ncands) > 0 && w.T.Bool(1, 4, "ref-names-a-notification") {
+			ref = ncands[w.T.Choose(len(ncands), "notify-ref")]
+			w.Probe("c13-response-references-a-notification")
+		} else if len(cands) > 0 && w.T.Bool(7, 8, "known-ref") {
 			ref = cands[w.T.Choose(len(cands), "ref")]
 		} else {
 			ref = 100000 + uint64(w.T.Choose(5, "unknown-ref"))
